@@ -52,6 +52,10 @@ pub fn generate(g: &mut G, index: u64) -> Scenario {
     let nclients = g.range(1, 3) as usize;
     let mut fam = one_actor(g, spec, nclients, kinds, (1, 2));
     fill_submissions(g, &mut fam, 4, 0);
+    // a restart in progress is not a termination: the queries keep saying "running"
+    if g.chance(1, 6) {
+        add_slow_restart(g, &mut fam);
+    }
     let await_mode = g.below(3); // 0 never, 1 before, 2 after
     apply_cause(g, &mut fam, cause);
     let closing = cause != Cause::LastDrop;
